@@ -83,6 +83,7 @@ func c10Jobs(thorough bool) []json.RawMessage {
 		{Name: "2x1-max1-wait-reqtimeout", N: 2, M: 1, MaxConns: 1, Wait: true, ReqTO: true},
 		{Name: "2x1-max1-wait-shortreqtimeout", N: 2, M: 1, MaxConns: 1, Wait: true, ReqTO: true, ShortReqTO: true},
 		{Name: "1x3-max1-reuse-head", N: 1, M: 3, MaxConns: 1, ReuseHead: true},
+		{Name: "1x3-max1-maxconnduration", N: 1, M: 3, MaxConns: 1, MaxConnDur: true},
 	}
 	if thorough {
 		scs = append(scs, c10.Scenario{Name: "3x2-max2-wait", N: 3, M: 2, MaxConns: 2, Wait: true})
